@@ -99,7 +99,7 @@ def variant_names(facts, ty):
     if not t or "adt" not in t:
         return None
     std = {"core::option::Option": ["None", "Some"], "core::result::Result": ["Ok", "Err"],
-           "core::ops::control_flow::ControlFlow": ["Continue", "Break"]}
+           "core::ops::control_flow::ControlFlow": ["Continue", "Break"], "core::task::poll::Poll": ["Ready", "Pending"]}
     if t["adt"] in std:
         return std[t["adt"]]
     a = facts.adt(t["adt"])
@@ -218,6 +218,25 @@ SUCCESS_TRANSPARENT = {"core::result::Result::<T, E>::map_err", "core::option::O
                        "core::option::Option::<T>::ok_or", "core::result::Result::<T, E>::map",
                        "core::option::Option::<T>::map"}
 TRY_BRANCH = "core::ops::try_trait::Try::branch"
+AWAIT_TRANSPARENT = {"core::future::into_future::IntoFuture::into_future", "core::pin::Pin::<Ptr>::new_unchecked",
+                     "core::future::future::Future::poll", "core::pin::Pin::<Ptr>::new"}
+
+
+def value_tracer(body, **kw):
+    """Tracer that also sees through the `.await` scaffolding and `?`"""
+    return Tracer(body, transparent=set(Tracer.TRANSPARENT) | AWAIT_TRANSPARENT | {TRY_BRANCH} | SUCCESS_TRANSPARENT
+                  | {"core::option::Option::<core::result::Result<T, E>>::transpose"}, **kw)
+
+
+def derives_from_call(body, op, call_bb, tr=None):
+    """the operand's value is (a projection of) the result of the call at call_bb"""
+    tr = tr or value_tracer(body)
+    for s in tr.sources(op):
+        while s[0] == "field":
+            s = s[1]
+        if s == ("call", call_bb):
+            return True
+    return False
 
 
 def uses_of_local(body, local):
@@ -259,7 +278,7 @@ def success_edges(body, facts, local, depth=0):
     """edges (switch_bb, value) that mean 'the Result/Option/ControlFlow held in `local` is the
     success variant (Ok / Some / Continue)'.  Follows moves, `?` (Try::branch), map_err & co."""
     out = []
-    if depth > 8:
+    if depth > 14:
         return out
     ty = body.local_ty(local)
     names = variant_names(facts, ty)
@@ -268,7 +287,7 @@ def success_edges(body, facts, local, depth=0):
         if j == "T":
             if "call" in item:
                 d = item["call"].get("def")
-                if d == TRY_BRANCH or d in SUCCESS_TRANSPARENT:
+                if d == TRY_BRANCH or d in SUCCESS_TRANSPARENT or d in AWAIT_TRANSPARENT:
                     out += success_edges(body, facts, place_local(item["dest"]), depth + 1)
             continue
         r = item["r"]
@@ -286,6 +305,12 @@ def success_edges(body, facts, local, depth=0):
                     if succ_idx and all(k not in listed for k in succ_idx) and len(listed) == len(names) - 1:
                         out.append((sbb, None))
         elif "use" in r and not place_proj(item["d"]) and op_place(r["use"]) is not None and not place_proj(op_place(r["use"])):
+            out += success_edges(body, facts, dst, depth + 1)
+        elif "use" in r and not place_proj(item["d"]) and op_place(r["use"]) is not None and names and "Ready" in names \
+                and any(isinstance(e, dict) and e.get("n") == "Ready" for e in place_proj(op_place(r["use"]))):
+            # payload of Poll::Ready after an `.await`
+            out += success_edges(body, facts, dst, depth + 1)
+        elif "ref" in r and not place_proj(item["d"]) and (isinstance(r["ref"], int) or r["ref"]["p"] == ["*"]):
             out += success_edges(body, facts, dst, depth + 1)
     return out
 
